@@ -56,6 +56,6 @@ theorem encodeAll_trees (cfg : EncCfg) (dcfg : DecCfg) (pf : Profile) (o : EncOp
         obtain ⟨x, hb, hxw, _, hxd, hber⟩ := encode_spec cfg pf _ _ hR o.ifNotEmpty hi t v b hreg hwf hvv.1 hvv.2 h'
         obtain ⟨w, hdw, hvw, _⟩ := complete_ty pf dcfg hC t v x (reg_plain true cfg _ t hreg) hwf hber
         exact ⟨x :: xs, by simp [serList, hb, hs], by simp [hl], ⟨hxw, hw⟩,
-          fun hp => by simp [allDefL, hxd hp, hok hp], ⟨⟨w, hdw, hvw⟩, hd⟩⟩
+          fun hp => by simp [allDefL, lenForm_allDef hxd hp, hok hp], ⟨⟨w, hdw, hvw⟩, hd⟩⟩
 
 end Asn1
